@@ -589,6 +589,11 @@ func (fr *Frame) emitEffect(st *State, name string, args []string) *State {
 			Guard: "true", Goal: "false", Src: "effect " + name + " is not listed in the function's effects clause"})
 	}
 	cnt, tm, avs := vc.effectVars(name)
+	if t.entry != nil && !vc.declared["cnt0:"+name] {
+		// an event counter is a count: non-negative at entry
+		vc.declared["cnt0:"+name] = true
+		vc.assume(fmt.Sprintf("(<= 0 %s)", t.entry.get(cnt)))
+	}
 	clk := vc.clkVar()
 	st = fr.setVar(st, clk, fmt.Sprintf("(+ %s 1)", st.get(clk)))
 	st = fr.setVar(st, cnt, fmt.Sprintf("(+ %s 1)", st.get(cnt)))
